@@ -107,7 +107,46 @@ def collect(prop, mod):
         if os.path.exists(meta_p) and os.path.exists(patch):
             meta = json.load(open(meta_p))
             items.append(("seeded", os.path.basename(d), {"patch": patch, "detected": meta.get("detected")}))
+    kfp = os.path.join(VERIF, "known_findings.json")
+    if os.path.exists(kfp):
+        seen = set()
+        for f in json.load(open(kfp)).get("findings", []):
+            if f.get("status") == "fixed" and f.get("property") == prop and f.get("commit") and f["commit"] not in seen:
+                seen.add(f["commit"])
+                items.append(("revfix", f["commit"], {"commit": f["commit"]}))
     return items
+
+
+def _overlay_reverse_commit(prog, commit):
+    """Pre-fix text of the files a /repo fix commit touched, re-created on top of the current tree by reverse-applying
+    that commit's diff (None when the commit is unknown or nothing changes)."""
+    g = ["git", "-C", prog.root]
+    files = subprocess.run(g + ["show", "--name-only", "--format=", commit], capture_output=True, text=True)
+    if files.returncode != 0:
+        return None
+    tmp = tempfile.mkdtemp(prefix="verif-revfix-")
+    try:
+        rels = files.stdout.split()
+        for rel in rels:
+            src = os.path.join(prog.root, rel)
+            if os.path.exists(src):
+                dst = os.path.join(tmp, rel)
+                os.makedirs(os.path.dirname(dst), exist_ok=True)
+                shutil.copy(src, dst)
+        diff = subprocess.run(g + ["diff", f"{commit}^", commit], capture_output=True, text=True).stdout
+        subprocess.run(["patch", "-R", "-p1", "-s", "-f", "--no-backup-if-mismatch"], input=diff, cwd=tmp, capture_output=True, text=True)
+        out = {}
+        for rel in rels:
+            pth = os.path.join(tmp, rel)
+            if os.path.exists(pth):
+                with open(pth, encoding="utf-8") as fh:
+                    txt = fh.read()
+                with open(os.path.join(prog.root, rel), encoding="utf-8") as fh:
+                    if txt != fh.read():
+                        out[rel] = txt
+        return out or None
+    finally:
+        shutil.rmtree(tmp, ignore_errors=True)
 
 
 def run(ctx, mod, jobs=16):
@@ -118,7 +157,12 @@ def run(ctx, mod, jobs=16):
     work, meta = [], []
     stale = 0
     for kind, name, m in items:
-        ov = _overlay_from_patch(prog, m["patch"]) if kind == "seeded" else _overlay_from_text(prog, m)
+        if kind == "seeded":
+            ov = _overlay_from_patch(prog, m["patch"])
+        elif kind == "revfix":
+            ov = _overlay_reverse_commit(prog, m["commit"])
+        else:
+            ov = _overlay_from_text(prog, m)
         if ov is None:
             stale += 1
             continue
@@ -133,7 +177,7 @@ def run(ctx, mod, jobs=16):
         else:
             with ProcessPoolExecutor(max_workers=min(jobs, len(work))) as ex:
                 results = list(ex.map(_analyse, work))
-    killed = survived = noisy = silent = seeded_det = seeded_miss = 0
+    killed = survived = noisy = silent = seeded_det = seeded_miss = rev_det = rev_tot = 0
     problems = []
     rows = []
     for (kind, name, m), r in zip(meta, results):
@@ -148,6 +192,12 @@ def run(ctx, mod, jobs=16):
             else:
                 survived += 1
                 problems.append(f"mutant {name} survived (new={new[:2]} error={r['error']})")
+        elif kind == "revfix":
+            rev_tot += 1
+            if new:
+                rev_det += 1
+            else:
+                problems.append(f"reverting fix {name} is not noticed (error={r['error']})")
         elif kind == "twin":
             if flagged:
                 noisy += 1
@@ -172,13 +222,15 @@ def run(ctx, mod, jobs=16):
             "twins_silent": silent,
             "seeded_total": seeded_det + seeded_miss,
             "seeded_detected": seeded_det,
+            "reverted_fixes_total": rev_tot,
+            "reverted_fixes_detected": rev_det,
             "battery_stale_skipped": stale,
             "battery_rows": rows,
         }
     )
     print(
         f"[{prop}] battery: mutants {killed}/{killed + survived} killed, twins {silent}/{silent + noisy} silent, "
-        f"seeded {seeded_det}/{seeded_det + seeded_miss} detected, stale {stale}"
+        f"seeded {seeded_det}/{seeded_det + seeded_miss} detected, reverted fixes {rev_det}/{rev_tot} detected, stale {stale}"
     )
     if problems and not base_keys - {k for k in base_keys}:
         pass
